@@ -3,7 +3,7 @@
 use serde_json::Value;
 
 use crate::fw::{Batch, CheckSpec, Tier, drive};
-use crate::{Args, eng_store, eng_txm};
+use crate::{Args, eng_disk, eng_store, eng_txm};
 
 const REAL_TXM: &[&str] = &["grafeo_engine::transaction::TransactionManager (all of manager.rs)"];
 
@@ -12,6 +12,8 @@ pub fn run_check(id: &str, args: &Args) -> i32 {
         "C03" => c03(args),
         "C04" => c04(args),
         "C14" => c14(args),
+        "C05" => c_disk(args, "C05"),
+        "C06" => c_disk(args, "C06"),
         _ => {
             eprintln!("harness error: no check registered for {id}");
             2
@@ -121,6 +123,44 @@ fn c14(args: &Args) -> i32 {
     )
 }
 
+fn c_disk(args: &Args, prop: &'static str) -> i32 {
+    let thorough = args.tier == Tier::Thorough;
+    let c06 = prop == "C06";
+    let spec = CheckSpec {
+        property: prop,
+        check_name: prop,
+        level: "fault_enumeration",
+        engine: "DISK",
+        rule: if c06 {
+            "operation sequences over a persistent GrafeoDB (every mutating API call with every value class, query mutations, checkpoint, rotate, sync, flush, clock jumps, close/reopen) under a per-run durability mode, log-size limit and BufWriter capacity; crash points are indices into the recorded disk-event log (so also inside close/checkpoint/rotation); per crash point the surviving image keeps every durable byte and a PRNG-chosen amount of the un-synced tail, optionally torn (zeros/garbage), un-synced new files present or absent, the newest rename durable or not; plus single-bit flips of log files; continuation after every fault. Non-trivial = >=2 steps and at least one restart or mutation; distinct = distinct (configuration, operation list)".into()
+        } else {
+            "operation sequences over a persistent GrafeoDB (every mutating API call with every value class, query mutations, checkpoint, rotate, sync, flush, clock jumps) with 1..n clean close/reopen cycles under a per-run durability mode, log-size limit and BufWriter capacity; no faults. Non-trivial = >=2 steps and at least one mutation or reopen; distinct = distinct (configuration, operation list)".into()
+        },
+        real: vec!["grafeo_engine::GrafeoDB (open/close/recovery/mutating API)", "grafeo_adapters::storage::wal::{WalManager, WalRecovery, WalRecord}", "LpgStore", "bincode/crc32 framing"],
+        stub: vec!["file system under wal/log.rs: pass-through to tmpfs with an event tap (std::fs::{File,OpenOptions,rename,remove_file})", "clock under wal/log.rs (simulated Instant/SystemTime)", "AdaptiveFlusher thread: not run; modelled as generated wal.sync() calls", "AsyncWalManager: not run (not reachable from GrafeoDB)"],
+        assumptions: vec![
+            "a file's directory entry is durable once the file has been fsynced (no separate directory fsync demanded)".into(),
+            "rename is atomic; its durability is sampled both ways".into(),
+            "crash states are op-granular prefixes: the recovered state must equal the model after p operations with floor <= p <= issued, where floor is computed from the bytes below each file's last fsync".into(),
+            "I/O errors (EIO/ENOSPC/short writes) are not injected: no property states what must happen then".into(),
+        ],
+        unchecked: vec!["bit flips are applied to wal_*.log files only, not to checkpoint.meta".into()],
+    };
+    let batch = Batch {
+        spec,
+        tier: args.tier,
+        seed: args.seed,
+        runs: runs(args, if c06 { 3_000 } else { 4_000 }, if c06 { 150_000 } else { 200_000 }),
+        workers: args.workers,
+    };
+    drive(
+        batch,
+        &|seed, i| eng_disk::run_one(seed, i, prop, thorough),
+        Some(&eng_disk::minimise),
+        &mut |_| {},
+    )
+}
+
 pub fn replay_file(path: &str) -> i32 {
     let text = match std::fs::read_to_string(path) {
         Ok(t) => t,
@@ -142,6 +182,7 @@ pub fn replay_file(path: &str) -> i32 {
     let found: Vec<(String, String)> = match rep["engine"].as_str() {
         Some("TXM") => eng_txm::replay(rep),
         Some("STORE") => eng_store::replay(rep),
+        Some("DISK") => eng_disk::replay(rep),
         other => {
             eprintln!("harness error: unknown engine {other:?} in {path}");
             return 2;
